@@ -90,6 +90,10 @@ def options(draw, n, nch):
     if "min_nnz" in omit and n < 14:
         omit.remove("min_nnz")      # the default (10) would mask every bin of a small matrix
     o = _options(draw, n, mode, x0)
+    if draw(st.integers(0, 5)) == 0:
+        # all bin-level filters off at once: bins that keep no data after the pixel-level filters (a lone diagonal
+        # pixel under ignore_diags, a bin without cis / trans contacts) then stay in the iteration with a zero marginal
+        o.update(min_nnz=0, mad_max=0, min_count=0)
     for k in omit:
         o[k] = DOC_DEFAULTS[k]
     o["omit"] = sorted(omit)
